@@ -1,5 +1,206 @@
-/* cmath */
+/* cmath: the EXACT subset of <etl/cmath.hpp> (C16), the two is_constant_evaluated() paths of the same function (C13) and
+ * UB-freedom of the constant-evaluated path (C02: UB in a constant expression is a hard compile error).
+ *
+ * Every float argument is one symbolic 32-bit pattern (VF_INPUT(u32, x_bits)) reinterpreted as float: all NaN payloads, +-0,
+ * denormals and +-inf are in the domain; double likewise with 64 bits (tier=thorough).  Classification on the specification
+ * side is done on the bit pattern (NAN_/INF_/SIGN_), independently of both tetl and CBMC's library; values are compared by
+ * bit pattern, NaN as a class.  The specification of a function is CBMC's IEEE-754 model of the C library function
+ * (floorf, ceilf, truncf, roundf, rintf, lrintf, copysignf, fabsf, fminf, fmaxf, fdimf, fmaf); fmod/remainder have no usable
+ * model in CBMC 6.11 (floatbv_mod / 128-bit round_to_integral are not implemented by the SAT back end): their specification
+ * is the bit-level long division s_fmod_f below.
+ *
+ * vf_ce = 1 selects the constant-evaluated (gcem / portable fallback) path, vf_ce = 0 the run-time path (compiler builtin,
+ * bound to the same CBMC model in cxx2c_prelude.h / prelude_extra.h).
+ *
+ * Not in tetl (nothing to verify): nearbyint lround llround isnormal fpclassify ilogb logb frexp ldexp scalbn modf.
+ * Not lowered: nextafter (etl::bit_cast -> __builtin_bit_cast: cxx2c UNSUPPORTED LValueToRValueBitCast). */
+#include "prelude_extra.h"
+typedef unsigned u32; typedef unsigned long long u64;
+static float  mk_f(u32 b) { union { u32 u; float f; } c; c.u = b; return c.f; }
+static double mk_d(u64 b) { union { u64 u; double f; } c; c.u = b; return c.f; }
+static u32 bits_f(float f) { union { u32 u; float f; } c; c.f = f; return c.u; }
+static u64 bits_d(double f) { union { u64 u; double f; } c; c.f = f; return c.u; }
+#define IN_f(x) VF_INPUT(u32, x##_bits); float x = mk_f(x##_bits)
+#define IN_d(x) VF_INPUT(u64, x##_bits); double x = mk_d(x##_bits)
+#define NAN_f(x) ((bits_f(x) & 0x7fffffffu) > 0x7f800000u)
+#define NAN_d(x) ((bits_d(x) & 0x7fffffffffffffffull) > 0x7ff0000000000000ull)
+#define INF_f(x) ((bits_f(x) & 0x7fffffffu) == 0x7f800000u)
+#define INF_d(x) ((bits_d(x) & 0x7fffffffffffffffull) == 0x7ff0000000000000ull)
+#define FIN_f(x) ((bits_f(x) & 0x7fffffffu) < 0x7f800000u)
+#define FIN_d(x) ((bits_d(x) & 0x7fffffffffffffffull) < 0x7ff0000000000000ull)
+#define SIGN_f(x) ((int)(bits_f(x) >> 31))
+#define SIGN_d(x) ((int)(bits_d(x) >> 63))
+#define ZERO_f(x) ((bits_f(x) & 0x7fffffffu) == 0)
+#define ZERO_d(x) ((bits_d(x) & 0x7fffffffffffffffull) == 0)
+#define SAME_f(r, e) (NAN_f(e) ? NAN_f(r) : bits_f(r) == bits_f(e))
+#define SAME_d(r, e) (NAN_d(e) ? NAN_d(r) : bits_d(r) == bits_d(e))
+#define ABS_f(x) mk_f(bits_f(x) & 0x7fffffffu)
+#define ABS_d(x) mk_d(bits_d(x) & 0x7fffffffffffffffull)
+#define EPS_f 0x1p-23f
+#define EPS_d 0x1p-52
+#define P63_f 0x1p63f
+#define P63_d 0x1p63
+#define MAX_f 0x1.fffffep127f
+#define MAX_d 0x1.fffffffffffffp1023
+
+/* ---- rounding to a floating value: floor ceil trunc round rint.  L is the libm suffix (f or empty). */
+#define B_RND(fn, T, S, L, KNOWN) { IN_##S(x); KNOWN; \
+  vf_ce = 1; T r1 = fn##_##S(x); T e = fn##L(x); \
+  VF_ASSERT(SAME_##S(r1, e), "C16: " #fn "(" #T ") constant-evaluated (portable) path is bit-identical to the C library function (NaN as a class, signed zero by bits)"); \
+  vf_ce = 0; T r0 = fn##_##S(x); \
+  VF_ASSERT(SAME_##S(r0, r1), "C13: " #fn "(" #T ") run-time path and constant-evaluated path agree bit for bit"); \
+  VF_ASSERT(SAME_##S(r0, e), "C16: " #fn "(" #T ") run-time path is bit-identical to the C library function"); \
+  VF_REACH(); }
+
+/* ---- lrint llrint: domain = the rounded value is representable (C 7.12.9.5: otherwise the result is unspecified) */
+#define B_LRINT(fn, R, T, S, L, KNOWN) { IN_##S(x); __CPROVER_assume(!NAN_##S(x) && ABS_##S(x) < P63_##S); KNOWN; \
+  vf_ce = 1; R r1 = fn##_##S(x); R e = fn##L(x); \
+  VF_ASSERT(r1 == e, "C16: " #fn "(" #T ") constant-evaluated (portable) path equals the C library function (round to nearest, ties to even)"); \
+  vf_ce = 0; R r0 = fn##_##S(x); \
+  VF_ASSERT(r0 == r1, "C13: " #fn "(" #T ") run-time path and constant-evaluated path agree"); \
+  VF_ASSERT(r0 == e, "C16: " #fn "(" #T ") run-time path equals the C library function"); \
+  VF_REACH(); }
+
+/* ---- copysign */
+#define B_COPYSIGN(T, S, L, KNOWN) { IN_##S(x); IN_##S(y); KNOWN; \
+  vf_ce = 1; T r1 = copysign_##S(x, y); T e = copysign##L(x, y); \
+  VF_ASSERT(SAME_##S(r1, e), "C16: copysign(" #T ") constant-evaluated (portable) path: magnitude of x, sign bit of y (incl. +-0 and NaN sign operands)"); \
+  VF_ASSERT(NAN_##S(x) || (bits_##S(ABS_##S(r1)) == bits_##S(ABS_##S(x)) && SIGN_##S(r1) == SIGN_##S(y)), "C16: copysign(" #T ") constant-evaluated path, bit-level statement: |r| == |x| and signbit(r) == signbit(y)"); \
+  vf_ce = 0; T r0 = copysign_##S(x, y); \
+  VF_ASSERT(SAME_##S(r0, r1), "C13: copysign(" #T ") run-time path and constant-evaluated path agree bit for bit"); \
+  VF_ASSERT(SAME_##S(r0, e), "C16: copysign(" #T ") run-time path is bit-identical to the C library function"); \
+  VF_REACH(); }
+
+/* ---- signbit */
+#define B_SIGNBIT(T, S, KNOWN) { IN_##S(x); KNOWN; \
+  vf_ce = 1; _Bool r1 = signbit_##S(x); \
+  VF_ASSERT(r1 == (_Bool)SIGN_##S(x), "C16: signbit(" #T ") constant-evaluated (portable) path == the sign bit (+0 -> false, -0 -> true, NaN -> its sign bit)"); \
+  vf_ce = 0; _Bool r0 = signbit_##S(x); \
+  VF_ASSERT(r0 == r1, "C13: signbit(" #T ") run-time path and constant-evaluated path agree"); \
+  VF_ASSERT(r0 == (_Bool)SIGN_##S(x), "C16: signbit(" #T ") run-time path == the sign bit"); \
+  VF_REACH(); }
+
+/* ---- fabs / abs (single source path) */
+#define B_FABS(T, S, L, KNOWN) { IN_##S(x); CE(); KNOWN; \
+  T r = fabs_##S(x); T a = abs_##S(x); T e = fabs##L(x); \
+  VF_ASSERT(SAME_##S(r, e), "C16: fabs(" #T ") is bit-identical to the C library function: sign bit cleared (fabs(-0) == +0, fabs(-inf) == +inf)"); \
+  VF_ASSERT(NAN_##S(x) || bits_##S(r) == bits_##S(ABS_##S(x)), "C16: fabs(" #T "), bit-level statement: the argument with the sign bit cleared"); \
+  VF_ASSERT(SAME_##S(a, e), "C16: abs(" #T ") is bit-identical to fabs of the C library"); \
+  VF_REACH(); }
+
+/* ---- fmin fmax (single source path).  C leaves the sign of fmin(+0,-0) open: either zero is accepted there. */
+#define MINMAX_OK(S, r, e, x, y) (SAME_##S(r, e) || (ZERO_##S(x) && ZERO_##S(y) && ZERO_##S(r)))
+#define B_MINMAX(T, S, L, KNOWN) { IN_##S(x); IN_##S(y); CE(); KNOWN; \
+  T rn = fmin_##S(x, y); T en = fmin##L(x, y); T rx = fmax_##S(x, y); T ex = fmax##L(x, y); \
+  VF_ASSERT(MINMAX_OK(S, rn, en, x, y), "C16: fmin(" #T ") equals the C library function: the smaller argument, the other one if exactly one argument is NaN"); \
+  VF_ASSERT(MINMAX_OK(S, rx, ex, x, y), "C16: fmax(" #T ") equals the C library function: the larger argument, the other one if exactly one argument is NaN"); \
+  VF_ASSERT(NAN_##S(x) ? SAME_##S(rn, y) && SAME_##S(rx, y) : NAN_##S(y) ? SAME_##S(rn, x) && SAME_##S(rx, x) : 1, "C16: fmin/fmax(" #T "), direct statement: exactly one NaN argument -> the other argument (C 7.12.12, F.10.9)"); \
+  VF_REACH(); }
+
+/* ---- fdim (single source path) */
+#define B_FDIM(T, S, L, KNOWN) { IN_##S(x); IN_##S(y); CE(); KNOWN; \
+  T r = fdim_##S(x, y); T e = fdim##L(x, y); \
+  VF_ASSERT(NAN_##S(x) || NAN_##S(y) ? NAN_##S(r) : SAME_##S(r, e), "C16: fdim(" #T ") equals the C library function: x - y if x > y, +0 if x <= y, NaN if an argument is NaN"); \
+  VF_REACH(); }
+
+/* ---- classification (single source path) */
+#define B_CLASSIFY(T, S, KNOWN) { IN_##S(x); CE(); KNOWN; \
+  VF_ASSERT(isnan_##S(x) == (_Bool)NAN_##S(x), "C16: isnan(" #T ") iff exponent all ones and fraction != 0 (every payload, both signs)"); \
+  VF_ASSERT(isinf_##S(x) == (_Bool)INF_##S(x), "C16: isinf(" #T ") iff exponent all ones and fraction == 0 (both signs)"); \
+  VF_ASSERT(isfinite_##S(x) == (_Bool)FIN_##S(x), "C16: isfinite(" #T ") iff exponent not all ones"); \
+  VF_REACH(); }
+
+/* ---- fma (two paths; attempt) */
+#define B_FMA(T, S, KNOWN) { IN_##S(x); IN_##S(y); IN_##S(z); KNOWN; \
+  vf_ce = 1; T r1 = fma_##S(x, y, z); T e = VF_FMA_##S(x, y, z); \
+  VF_ASSERT(SAME_##S(r1, e), "C16: fma(" #T ") constant-evaluated path equals x*y+z rounded ONCE"); \
+  vf_ce = 0; T r0 = fma_##S(x, y, z); \
+  VF_ASSERT(SAME_##S(r0, r1), "C13: fma(" #T ") run-time path and constant-evaluated path agree bit for bit"); \
+  VF_REACH(); }
+
+/* ---- lerp: the exactness clauses of [c.math.lerp]: isfinite(a) && isfinite(b) => lerp(a,b,0) == a, lerp(a,b,1) == b;
+ *      isfinite(t) && a == b => lerp(a,b,t) == a.  (== is the floating comparison, as in the standard.) */
+#define B_LERP(T, S, KNOWN) { IN_##S(a); IN_##S(b); IN_##S(t); CE(); __CPROVER_assume(FIN_##S(a) && FIN_##S(b)); KNOWN; \
+  VF_ASSERT(lerp_##S(a, b, (T)0) == a, "C16: lerp(a,b,0) == a for finite a, b"); \
+  VF_ASSERT(lerp_##S(a, b, (T)1) == b, "C16: lerp(a,b,1) == b for finite a, b"); \
+  if (FIN_##S(t) && a == b) VF_ASSERT(lerp_##S(a, b, t) == a, "C16: lerp(a,b,t) == a for finite t and a == b"); \
+  VF_REACH(); }
+
+/* ---- hypot: C F.10.4.3: hypot(+-inf, y) == +inf even if y is NaN; otherwise NaN if an argument is NaN; symmetric.
+ *      The domain of this obligation is {some argument is inf or NaN}: sqrt (approximating, out of scope) is never reached. */
+#define PINF_f 0x7f800000u
+#define PINF_d 0x7ff0000000000000ull
+#define B_HYPOT(T, S, KNOWN) { IN_##S(x); IN_##S(y); IN_##S(z); CE(); KNOWN; \
+  if (!FIN_##S(x) || !FIN_##S(y)) { T r = hypot_##S(x, y); \
+    VF_ASSERT(INF_##S(x) || INF_##S(y) ? bits_##S(r) == PINF_##S : NAN_##S(r), "C16: hypot(x,y): an infinite argument gives +inf (even with a NaN), otherwise a NaN argument gives NaN"); } \
+  if (!FIN_##S(x) || !FIN_##S(y) || !FIN_##S(z)) { T r = hypot3_##S(x, y, z); \
+    VF_ASSERT(INF_##S(x) || INF_##S(y) || INF_##S(z) ? bits_##S(r) == PINF_##S : NAN_##S(r), "C16: hypot(x,y,z): an infinite argument gives +inf (even with a NaN), otherwise a NaN argument gives NaN"); } \
+  VF_REACH(); }
+
+/* ---- floating midpoint [numeric.ops.midpoint]: no overflow, between the arguments, exact for equal arguments; symmetric */
+#define B_MIDPOINT(T, S, KNOWN) { IN_##S(a); IN_##S(b); CE(); __CPROVER_assume(FIN_##S(a) && FIN_##S(b)); KNOWN; \
+  T r = midpoint_##S(a, b); T lo = a < b ? a : b; T hi = a < b ? b : a; \
+  VF_ASSERT(FIN_##S(r), "C16: midpoint(" #T "): no overflow for finite arguments (incl. +-max)"); \
+  VF_ASSERT(lo <= r && r <= hi, "C16: midpoint(" #T ") lies between its arguments"); \
+  if (a == b) VF_ASSERT(r == a, "C16: midpoint(a,a) == a"); \
+  VF_REACH(); }
+#define B_MIDPOINT_SYM(T, S, KNOWN) { IN_##S(a); IN_##S(b); CE(); __CPROVER_assume(FIN_##S(a) && FIN_##S(b)); KNOWN; \
+  T r = midpoint_##S(a, b); T q = midpoint_##S(b, a); \
+  VF_ASSERT(r == q && (ZERO_##S(r) || bits_##S(r) == bits_##S(q)), "C16: midpoint(" #T ") is symmetric: midpoint(a,b) == midpoint(b,a)"); \
+  VF_REACH(); }
+
 #define CE() VF_INPUT_BOOL(ce); vf_ce = ce
+
 /*@GROUP name=floor_f props=C16,C13,C02 kind=F@*/
-void h_floor_f(void) { VF_INPUT(unsigned, bits); float x; memcpy(&x, &bits, 4); vf_ce = 1; float r = floor_f(x); float e = floorf(x);
-  VF_ASSERT(isnan(e) ? isnan(r) : r == e, "C16: floor"); VF_REACH(); }
+void h_floor_f(void) B_RND(floor, float, f, f, VF_KNOWN(C16_gcem_llong_cast, FIN_f(x) && ABS_f(x) >= P63_f); VF_KNOWN(C16_gcem_tiny_as_integral, !ZERO_f(x) && ABS_f(x) < EPS_f))
+
+/*@GROUP name=ceil_f props=C16,C02 kind=F@*/
+void h_ceil_f(void) B_RND(ceil, float, f, f, VF_KNOWN(C16_gcem_llong_cast, FIN_f(x) && ABS_f(x) >= P63_f); VF_KNOWN(C16_gcem_tiny_as_integral, !ZERO_f(x) && ABS_f(x) < EPS_f); VF_KNOWN(C16_gcem_neg_zero_lost, x > -1 && x <= -EPS_f))
+
+/*@GROUP name=trunc_f props=C16,C13,C02 kind=F@*/
+void h_trunc_f(void) B_RND(trunc, float, f, f, VF_KNOWN(C16_gcem_llong_cast, FIN_f(x) && ABS_f(x) >= P63_f); VF_KNOWN(C16_gcem_tiny_as_integral, !ZERO_f(x) && ABS_f(x) < EPS_f); VF_KNOWN(C16_gcem_neg_zero_lost, x > -1 && x <= -EPS_f))
+
+/*@GROUP name=round_f props=C16,C13,C02 kind=F@*/
+void h_round_f(void) B_RND(round, float, f, f, VF_KNOWN(C16_gcem_llong_cast, FIN_f(x) && ABS_f(x) >= P63_f); VF_KNOWN(C16_gcem_tiny_as_integral, !ZERO_f(x) && ABS_f(x) < EPS_f))
+
+/*@GROUP name=rint_f props=C16,C13,C02 kind=F@*/
+void h_rint_f(void) B_RND(rint, float, f, f, VF_KNOWN(C16_rint_fallback_overflow, !FIN_f(x) || ABS_f(x) >= P63_f); VF_KNOWN(C16_rint_fallback_truncates, FIN_f(x) && ABS_f(x) < P63_f && rintf(x) != truncf(x)); VF_KNOWN(C16_rint_fallback_neg_zero, SIGN_f(x) && x > -1))
+
+/*@GROUP name=lrint_f props=C16,C13,C02 kind=F@*/
+void h_lrint_f(void) B_LRINT(lrint, long, float, f, f, VF_KNOWN(C16_lrint_fallback_truncates, rintf(x) != truncf(x)))
+
+/*@GROUP name=llrint_f props=C16,C13,C02 kind=F@*/
+void h_llrint_f(void) B_LRINT(llrint, long long, float, f, f, VF_KNOWN(C16_lrint_fallback_truncates, rintf(x) != truncf(x)))
+
+/*@GROUP name=copysign_f props=C16,C13,C02 kind=F@*/
+void h_copysign_f(void) B_COPYSIGN(float, f, f, VF_KNOWN(C16_copysign_fallback_zero_nan, !NAN_f(x) && SIGN_f(x) != SIGN_f(y) && (ZERO_f(x) || ZERO_f(y) || NAN_f(y))))
+
+/*@GROUP name=signbit_f props=C16,C13,C02 kind=F@*/
+void h_signbit_f(void) B_SIGNBIT(float, f, VF_KNOWN(C16_signbit_fallback_pos_zero, x_bits == 0); VF_KNOWN(C16_signbit_fallback_neg_nan, NAN_f(x) && SIGN_f(x)))
+
+/*@GROUP name=fabs_f props=C16,C02 kind=F@*/
+void h_fabs_f(void) B_FABS(float, f, f, VF_KNOWN(C16_fabs_neg_zero, x_bits == 0x80000000u))
+
+/*@GROUP name=minmax_f props=C16,C02 kind=F@*/
+void h_minmax_f(void) B_MINMAX(float, f, f, VF_KNOWN(C16_fmin_fmax_nan_second, NAN_f(y) && !NAN_f(x)))
+
+/*@GROUP name=fdim_f props=C16,C02 kind=F@*/
+void h_fdim_f(void) B_FDIM(float, f, f, VF_KNOWN(C16_fdim_nan, NAN_f(x) || NAN_f(y)))
+
+/*@GROUP name=classify_f props=C16,C02 kind=F@*/
+void h_classify_f(void) B_CLASSIFY(float, f, (void)0)
+
+/*@GROUP name=lerp_f props=C16,C02 kind=F@*/
+void h_lerp_f(void) B_LERP(float, f, (void)0)
+
+/*@GROUP name=hypot_f props=C16,C02 kind=F@*/
+void h_hypot_f(void) B_HYPOT(float, f, (void)0)
+
+/*@GROUP name=midpoint_f props=C16,C02 kind=F@*/
+void h_midpoint_f(void) B_MIDPOINT(float, f, (void)0)
+
+/*@GROUP name=midpoint_sym_f props=C16,C02 kind=F@*/
+void h_midpoint_sym_f(void) B_MIDPOINT_SYM(float, f, (void)0)
+
+/*@GROUP name=fma_f props=C16,C13,C02 kind=F timeout=600 tier=thorough solver=kissat@*/
+void h_fma_f(void) B_FMA(float, f, VF_KNOWN(C16_fma_constexpr_not_fused, FIN_f(x) && FIN_f(y) && VF_FMA_f(x, y, -(x * y)) != 0))
